@@ -17,7 +17,9 @@ PageOf(k, p, base) ==
       \* two headings of one level with nothing between them read as one two-line heading: the second becomes a paragraph
       kindAt(j) == IF raw[j] = "tb" /\ j # firstTb THEN "p" ELSE IF j > 1 /\ IsHeading(raw[j]) /\ raw[j - 1] = raw[j] THEN "p" ELSE raw[j]
   IN [j \in 1..Len(raw) |-> [kind |-> kindAt(j), id |-> base + j, lines |-> ((k + j) % 3) + 1]]
-DocOf(k) == [pages |-> [p \in 1..NPages(k) |-> PageOf(k, p, 20 * p)]]
+\* every fourth document has a page without any text in the middle (a blank sheet, a figure)
+DocOf(k) == LET ps == [p \in 1..NPages(k) |-> PageOf(k, p, 20 * p)] IN
+            [pages |-> IF k % 4 = 3 /\ Len(ps) >= 2 THEN <<ps[1], <<>>>> \o SubSeq(ps, 2, Len(ps)) ELSE ps]
 Cfgs == << [maxTokens |-> 512, mergeAdjacent |-> TRUE, propagate |-> TRUE, context |-> "heading"], [maxTokens |-> 12, mergeAdjacent |-> FALSE, propagate |-> TRUE, context |-> "contextual"],
            [maxTokens |-> 40, mergeAdjacent |-> TRUE, propagate |-> FALSE, context |-> "none"], [maxTokens |-> 512, mergeAdjacent |-> FALSE, propagate |-> TRUE, context |-> "none"],
            [maxTokens |-> 25, mergeAdjacent |-> TRUE, propagate |-> TRUE, context |-> "contextual"] >>
